@@ -382,6 +382,15 @@ def streams(draw, spec, max_rows=30, exact_bias=True, nonpositive=True, none_cat
     out = []
     for _ in range(n):
         out.append((draw(rows(crit, exactish, none_cats=none_cats, focus=focus)), draw(weights(exactish, nonpositive))))
+    if n and draw(st.integers(0, 5)) == 0:
+        # a block of rows (often the whole stream) in which one numeric column holds one special value only: states
+        # such as "non-empty but every quantity was NaN" are unreachable by independent per-cell draws
+        col = draw(st.sampled_from(NUMCOLS))
+        v = draw(st.sampled_from(SPECIAL + (0.0,)))
+        lo = draw(st.sampled_from((0, 0, draw(st.integers(0, n - 1)))))
+        hi = draw(st.sampled_from((n, n, draw(st.integers(lo + 1, n)))))
+        for row, _ in out[lo:hi]:
+            row[col] = v
     return out, exactish
 
 
